@@ -4412,7 +4412,10 @@ where
                 }
             })?;
 
-            // Replace empty TDS with simplex TDS (preserve kernel)
+            // Replace empty TDS with simplex TDS (preserve kernel). Keep the generation counter
+            // monotonic across the replacement so stale hull views are still detected.
+            let mut new_tds = new_tds;
+            new_tds.continue_generation_from(&self.tds);
             self.tds = new_tds;
             #[cfg(delaunay_verif)]
             if crate::verif::fail::hit("insert.bootstrap_simplex.retry") {
